@@ -474,7 +474,7 @@ func programs(tier string, race bool) []Program {
 	// 2 threads: all pairs of thread programs
 	b2 := 2
 	if tier == "thorough" {
-		b2 = 4
+		b2 = 3
 	}
 	if race {
 		// the race build is ~10x slower: one preemption less, same programs
@@ -502,7 +502,7 @@ func programs(tier string, race bool) []Program {
 	b3 := 2
 	if tier == "thorough" {
 		three = append(append([]string{}, single...), "XS", "XR", "RX", "XC")
-		b3 = 3
+		b3 = 2
 	}
 	if race {
 		three = single
@@ -534,7 +534,7 @@ func programs(tier string, race bool) []Program {
 						if !nonAdmin(a + b + c + d) {
 							continue
 						}
-						add(Program{Threads: []string{a, b, c, d}, Bound: 2})
+						add(Program{Threads: []string{a, b, c, d}, Bound: 1})
 					}
 				}
 			}
@@ -617,7 +617,7 @@ func main() {
 	nproc := 16
 	budget := 50 * time.Second
 	if args.Tier == "thorough" {
-		budget = 9 * time.Minute
+		budget = 6 * time.Minute
 	}
 	os.Setenv("VERIF_DEADLINE", fmt.Sprint(time.Now().Add(budget).Unix()))
 	m := mc.RunShards(run, nproc)
